@@ -273,9 +273,21 @@ def run_shards(exe, argsets, env, timeout, res=None, cwd=None, ok_codes=(0,), la
     a crash outside a confined region, and is reported with its output)."""
     res = res or Results()
 
+    t_start = time.time()
+
     def one(job):
         i, args = job
         t0 = time.time()
+        # "--deadline S" is a budget for the whole check, counted from the start of run_shards: a shard that is
+        # launched later gets what is left (at least 10 s), so the check as a whole is bounded
+        args = list(args)
+        if "--deadline" in args:
+            k = args.index("--deadline")
+            try:
+                left = float(args[k + 1]) - (t0 - t_start)
+                args[k + 1] = int(max(10, left))
+            except (ValueError, IndexError):
+                pass
         try:
             p = subprocess.run([exe] + [str(a) for a in args], stdout=subprocess.PIPE, stderr=subprocess.PIPE,
                                env=env, timeout=timeout, cwd=cwd, input=(inputs[i].encode() if inputs else None))
